@@ -41,15 +41,15 @@ def standard_flow(run, units, deps, vmon, profiles=("debug",), tag="s", nshards=
         s = shards.run_shards(run, bins, index, args=args, rebuild=rebuild)
         for k, v in s.items():
             all_samples.setdefault(k, []).extend(v)
-    # every check also re-runs a sample of its units (every RELEASE_SAMPLE-th) without debug assertions and fully optimised:
+    # every check also re-runs a sample of its units (every RELEASE_SAMPLE-th) without debug assertions and overflow checks (profile `nodebug`):
     # behaviour that hides behind debug_assert!/overflow checks differs only there
     if "release" not in profiles and RELEASE_SAMPLE > 0 and len(units) >= 1:
         sub = units[::RELEASE_SAMPLE]
-        prof = shards.PROFILES["release"]
+        prof = shards.PROFILES["nodebug"]
         bins = shards.compile_units(run, sub, deps, prof, vmon, tag + "rel", extra_head=extra_head, nshards=nshards, extern_name=extern_name)
         run.count("shards/release-sample", len(bins))
         run.count("units/release-sample", len(sub))
-        args = [str(run.seed), run.tier, "release"] + list(extra_args)
+        args = [str(run.seed), run.tier, "nodebug"] + list(extra_args)
         ctr2 = [0]
 
         def rebuild2(us, nsh):
